@@ -27,6 +27,20 @@ Streams:
                 backward = cycle-creating, duplicate, dangling, self edges,
                 removals of present/absent edges, re-added nodes)
   exotic        seeded uniformly random operations over a small alphabet
+
+Objects: every stream runs on a plain `DAG`; the trie / probe / random / exotic
+streams also run on fresh `ExecutionGraph` instances (a DAG subclass, the
+operations are inherited) and on a fresh `Study` instance's own DAG API (it is
+born with the node `_source`, which is name `n` of the case: the model's setup
+gets `AddNode n` in front).
+
+Process history: the streams above run in a process in which no study has been
+staged; then a few small real studies are staged (harness.props.c08 builds
+them exactly as maestro.run_study does) and the `history` streams run the
+probe / trie / random sequences and the corpus again on FRESH objects of all
+three kinds -- the monitor has to hold on every object whatever happened to
+other objects before.  (Study.stage() switches detect_cycle off on the staged
+ExecutionGraph instance itself, by design; that one object is not examined.)
 """
 import copy
 import glob
@@ -72,15 +86,68 @@ def name_of(i):
     return "step%d" % i
 
 
+KINDS = ("DAG", "ExecutionGraph", "Study")
+SOURCE_NAME = "_source"
+_FACT = {}
+_HIST = {"staged": 0, "ok": 0, "errors": {}}
+
+
+def _factories(DAG):
+    """kind -> callable returning a fresh object with the DAG API (or raising)."""
+    if _FACT:
+        return _FACT
+    _FACT["DAG"] = DAG
+
+    def mk_eg():
+        from maestrowf.datastructures.core.executiongraph import ExecutionGraph
+        return ExecutionGraph()
+
+    def mk_study():
+        from maestrowf.datastructures.core import Study
+        return Study("c14", {"name": "c14", "description": "dag api"},
+                     out_path=os.path.join(common.WORK, "C14_hist", "plain"))
+
+    _FACT["ExecutionGraph"] = mk_eg
+    _FACT["Study"] = mk_study
+    return _FACT
+
+
+def pre_ops(kind, n):
+    """Operations the object's constructor has already done (model side only)."""
+    return [("add_node", n)] if kind == "Study" else []
+
+
+def stage_history(rng, k):
+    """Stage one small real study in this process (as maestro.run_study does)."""
+    try:
+        from harness.props import c08
+        tiny = [c for c in c08.tiny_cases() if c["steps"][1]["run"].get("depends")]
+        case = rng.choice(tiny)
+        root = os.path.join(common.WORK, "C14_hist", "s%d" % k, "out")
+        o, _, dag = c08.stage_real(case, root)
+        _HIST["staged"] += 1
+        if o.get("ok") and dag is not None:
+            _HIST["ok"] += 1
+        else:
+            key = "%s:%s" % (o.get("err"), o.get("exc"))
+            _HIST["errors"][key] = _HIST["errors"].get(key, 0) + 1
+    except Exception as e:          # mutated tree: staging may be impossible
+        _HIST["staged"] += 1
+        key = "harness:%s" % type(e).__name__
+        _HIST["errors"][key] = _HIST["errors"].get(key, 0) + 1
+
+
 class Impl:
     """One live DAG object plus the translation names <-> numbers."""
 
-    def __init__(self, DAG, n):
+    def __init__(self, DAG, n, kind="DAG"):
         self.n = n
         self.idx = {name_of(i): i for i in range(n)}
+        if kind == "Study":
+            self.idx[SOURCE_NAME] = n
         self.error = None
         try:
-            self.d = DAG()
+            self.d = _factories(DAG)[kind]()
         except Exception as e:
             self.d = None
             self.error = "EXC:%s" % type(e).__name__
@@ -157,8 +224,8 @@ class Impl:
         return json.dumps([self.table(), self.vals()])
 
 
-def build_case(DAG, n, setup, branches):
-    base = Impl(DAG, n)
+def build_case(DAG, n, setup, branches, kind="DAG"):
+    base = Impl(DAG, n, kind)
     for op in setup:
         base.apply(op)
     start = base.table()
@@ -170,7 +237,8 @@ def build_case(DAG, n, setup, branches):
             k = im.apply(op)
             steps.append([list(op), im.observe(k)])
         out.append(steps)
-    return {"n": n, "setup": [list(o) for o in setup], "start": start, "branches": out}
+    return {"n": n, "setup": [list(o) for o in setup], "start": start, "branches": out, "obj": kind,
+            "hist": _HIST["staged"]}
 
 
 # ----------------------------------------------------------------------------
@@ -204,7 +272,8 @@ def g_obs(o):
 
 def g_case(c):
     brs = ";".join("[" + ";".join("(%s,%s)" % (g_op(op), g_obs(o)) for op, o in br) + "]" for br in c["branches"])
-    return "C_ %d [%s] %s [%s]" % (c["n"], ";".join(g_op(o) for o in c["setup"]), g_graph(c["start"]), brs)
+    setup = pre_ops(c.get("obj", "DAG"), c["n"]) + [tuple(o) for o in c["setup"]]
+    return "C_ %d [%s] %s [%s]" % (c["n"], ";".join(g_op(o) for o in setup), g_graph(c["start"]), brs)
 
 
 # ----------------------------------------------------------------------------
@@ -217,7 +286,7 @@ def all_ops(n):
     return ops
 
 
-def exhaustive_nodedup(DAG, n, L, hist):
+def exhaustive_nodedup(DAG, n, L, hist, kind="DAG", stream="exh-nodedup"):
     """Every sequence of length <= L: one case per prefix of length < L, whose
     branches are the single next operations (trie; nothing is shared)."""
     ops = all_ops(n)
@@ -233,13 +302,13 @@ def exhaustive_nodedup(DAG, n, L, hist):
             brs.append([[list(op), im.observe(k)]])
             kids.append(im)
         cases.append({"n": n, "setup": [list(o) for o in prefix], "start": start, "branches": brs,
-                      "stream": "exh-nodedup"})
+                      "stream": stream, "obj": kind, "hist": _HIST["staged"]})
         if len(prefix) + 1 < L:
             for op, im in zip(ops, kids):
                 rec(im, prefix + [op])
 
-    rec(Impl(DAG, n), [])
-    hist["exh-nodedup n=%d len<=%d sequences" % (n, L)] = sum(len(ops) ** i for i in range(1, L + 1))
+    rec(Impl(DAG, n, kind), [])
+    hist["%s %s n=%d len<=%d sequences" % (stream, kind, n, L)] = sum(len(ops) ** i for i in range(1, L + 1))
     return cases
 
 
@@ -267,11 +336,39 @@ def exhaustive_states(DAG, n, L, hist):
                     seen.add(key)
                     nxt.append((im, path + [op]))
             cases.append({"n": n, "setup": [list(o) for o in path], "start": start, "branches": brs,
-                          "stream": "exh-states"})
+                          "stream": "exh-states", "obj": "DAG", "hist": _HIST["staged"]})
         frontier = nxt
     hist["exh-states n=%d len<=%d: states expanded" % (n, L)] = len(cases)
     hist["exh-states n=%d len<=%d: transitions checked" % (n, L)] = transitions
     hist["exh-states n=%d len<=%d: sequences covered" % (n, L)] = sum(len(ops) ** i for i in range(1, L + 1))
+    return cases
+
+
+PROBE_SETUPS = [
+    (2, [("add_node", 0), ("add_node", 1), ("add_edge", 0, 1)]),
+    (3, [("add_node", 0), ("add_node", 1), ("add_node", 2), ("add_edge", 0, 1), ("add_edge", 1, 2)]),
+    (3, [("add_node", 2), ("add_node", 0), ("add_node", 1), ("add_edge", 2, 1), ("add_edge", 1, 0)]),
+    (4, [("add_node", 0), ("add_node", 1), ("add_node", 2), ("add_node", 3), ("add_edge", 0, 1),
+         ("add_edge", 0, 2), ("add_edge", 1, 3), ("add_edge", 2, 3)]),
+]
+
+
+def probes(DAG, kind, stream, hist):
+    """From a few built tables (edge, chains, diamond): every single next
+    operation, and every pair (edge operation, any operation) -- so that a
+    cycle-closing edge that was wrongly accepted is also operated on."""
+    cases = []
+    for n, setup in PROBE_SETUPS:
+        ops = all_ops(n)
+        edge_ops = [o for o in ops if o[0] == "add_edge" and o[1] != o[2]]
+        brs = [[o] for o in ops]
+        if n <= 3:
+            brs += [[a, b] for a in edge_ops for b in ops]
+        c = build_case(DAG, n, setup, brs, kind)
+        c["stream"] = stream
+        cases.append(c)
+        k = "%s %s: (table, branch) pairs" % (stream, kind)
+        hist[k] = hist.get(k, 0) + len(brs)
     return cases
 
 
@@ -386,13 +483,15 @@ def single_branch_prefixes(case):
     for br in case["branches"]:
         for k in range(1, len(br) + 1):
             out.append({"n": case["n"], "setup": case["setup"], "start": case["start"],
-                        "branches": [br[:k]], "stream": case.get("stream", "")})
+                        "branches": [br[:k]], "stream": case.get("stream", ""),
+                        "obj": case.get("obj", "DAG"), "hist": case.get("hist", 0)})
     return out
 
 
 def strip(case):
     """The replayable part of a case (inputs only)."""
-    return {"n": case["n"], "setup": case["setup"],
+    return {"n": case["n"], "setup": case["setup"], "obj": case.get("obj", "DAG"),
+            "hist": case.get("hist", 0),
             "branches": [[op for op, _ in br] for br in case["branches"]]}
 
 
@@ -402,11 +501,14 @@ def flatten(case):
     return case["setup"] + [op for op, _ in case["branches"][0]]
 
 
-def shrink(DAG, case, fn, rounds=12):
+def shrink(DAG, case, fn, rounds=12, keep=None):
     """case has one branch and fails `fn`.  Drop operations while it still fails."""
     seq = [tuple(o) for o in flatten(case)]
     n = case["n"]
-    best = build_case(DAG, n, [], [seq])
+    kind = case.get("obj", "DAG")
+    stream = case.get("stream", "")
+    best = build_case(DAG, n, [], [seq], kind)
+    best["stream"] = stream
     bad, errs = evaluate("C14_shrink", [best], fn)
     if errs or not bad:
         return case            # the flattened form does not fail (should not happen): keep
@@ -415,33 +517,68 @@ def shrink(DAG, case, fn, rounds=12):
         cands = [c for c in cands if c]
         if not cands:
             break
-        built = [build_case(DAG, n, [], [c]) for c in cands]
+        built = [build_case(DAG, n, [], [c], kind) for c in cands]
         bad, errs = evaluate("C14_shrink", built, fn)
+        if keep is not None:
+            bad = [i for i in bad if keep(built[i])]
         if errs or not bad:
             break
         seq = cands[bad[0]]
         best = built[bad[0]]
+        best["stream"] = stream
     return best
 
 
 def model_text(case):
     """The model's observables for a (one-branch) case, as Coq prints them."""
-    ops = ";".join(g_op(o) for o in flatten(case))
+    ops = ";".join(g_op(o) for o in pre_ops(case.get("obj", "DAG"), case["n"]) + [tuple(o) for o in flatten(case)])
     return common.coq_eval("C14_model", HEADER, "model_trace %d [] [%s]" % (case["n"], ops))[-6000:]
+
+
+def table_cyclic(adj):
+    """python-side, used only to word messages and to steer the shrinker"""
+    t = {k: v for k, v in adj}
+    seen, stack = set(), set()
+
+    def go(v):
+        seen.add(v)
+        stack.add(v)
+        for c in t.get(v, []):
+            if c in stack or (c not in seen and go(c)):
+                return True
+        stack.discard(v)
+        return False
+    return any(v not in seen and go(v) for v in list(t))
+
+
+def shows_cycle(case):
+    return any(table_cyclic(o["adj"]) for br in case["branches"] for _, o in br)
 
 
 def describe(case):
     """Which conjunct of the monitor fails where -- computed in python only to
     word the message; the verdict itself came from Coq."""
+    where = "on a fresh %s object" % case.get("obj", "DAG")
+    if case.get("hist"):
+        where += " (after %d studies were staged in the same process)" % case["hist"]
+
+    for br in case["branches"]:
+        for op, o in br:
+            if table_cyclic(o["adj"]):
+                return "%s: %s was accepted/left in the table, which now contains a cycle: %s (how the call ended: %s, its detect_cycle() code: %s)" % (
+                    where, op, o["adj"], o["kind"], o["cyc"])
     for br in case["branches"]:
         prev = case["start"]
         for op, o in br:
-            if o["cyc"] == 1:
-                return "after %s the table %s contains a cycle (detect_cycle() is True)" % (op, o["adj"])
+            if o["cyc"] == 1 or table_cyclic(o["adj"]):
+                return "%s: after %s the table %s contains a cycle (its detect_cycle() code: %s)" % (
+                    where, op, o["adj"], o["cyc"])
             if o["kind"] != 0 and o["adj"] != prev:
-                return "%s raised but changed the table from %s to %s" % (op, prev, o["adj"])
+                return "%s: %s raised but changed the table from %s to %s" % (where, op, prev, o["adj"])
+            if o["cyc"] != 0:
+                return "%s: after %s detect_cycle() did not answer False (code %s)" % (where, op, o["cyc"])
             prev = o["adj"]
-    return "C14_ok is false on the implementation's observables"
+    return "%s: C14_ok is false on the implementation's observables" % where
 
 
 def process(ck, DAG, cases, tag):
@@ -465,8 +602,12 @@ def process(ck, DAG, cases, tag):
     mism = [c for j, c in enumerate(failing) if j not in mon]
     key = lambda c: len(c["setup"]) + len(c["branches"][0])
     if viol:
-        c = min(viol, key=key)
-        c = shrink(DAG, c, "monitor_ok")
+        # prefer a witness in which a cycle is actually in the table
+        cyc = [c for c in viol if shows_cycle(c)]
+        if cyc:
+            c = shrink(DAG, min(cyc, key=key), "monitor_ok", keep=shows_cycle)
+        else:
+            c = shrink(DAG, min(viol, key=key), "monitor_ok")
         ck.violation(describe(c), dict(strip(c), observed=c["branches"], stream=c.get("stream", "")))
     if mism:
         c = min(mism, key=key)
@@ -480,22 +621,49 @@ def process(ck, DAG, cases, tag):
     return len(bad)
 
 
-def load_corpus(DAG):
+def load_corpus(DAG, kinds=("DAG",), tag="corpus"):
     cases = []
     for p in sorted(glob.glob(os.path.join(common.CORPUS, PID, "*.json"))):
         j = json.load(open(p))
         j = j.get("case", j)
-        c = build_case(DAG, j["n"], [tuple(o) for o in j.get("setup", [])],
-                       [[tuple(o) for o in br] for br in j["branches"]])
-        c["stream"] = "corpus:" + os.path.basename(p)
-        cases.append(c)
+        for kind in kinds:
+            c = build_case(DAG, j["n"], [tuple(o) for o in j.get("setup", [])],
+                           [[tuple(o) for o in br] for br in j["branches"]], kind)
+            c["stream"] = "%s:%s" % (tag, os.path.basename(p))
+            cases.append(c)
     return cases
 
 
 def budgets(tier):
     if tier == "thorough":
-        return dict(nodedup=(3, 4), states=[(3, 6), (4, 5)], random=3000, exotic=1500)
-    return dict(nodedup=(3, 3), states=[(3, 5), (4, 3)], random=250, exotic=150)
+        return dict(nodedup=(3, 4), states=[(3, 6), (4, 5)], random=3000, exotic=1500,
+                    sub_nodedup=(3, 3), hist_nodedup=(3, 2), hist_random=1200, hist_exotic=400, stagings=4)
+    return dict(nodedup=(3, 3), states=[(3, 5), (4, 3)], random=250, exotic=150,
+                sub_nodedup=(2, 3), hist_nodedup=(2, 2), hist_random=80, hist_exotic=30, stagings=2)
+
+
+def pick_kind(rng):
+    r = rng.random()
+    return "DAG" if r < 0.4 else "ExecutionGraph" if r < 0.75 else "Study"
+
+
+def sequences(DAG, rng, hist, n_random, n_exotic, stream_r, stream_e, kind_of):
+    cases = []
+    for _ in range(n_random):
+        n = rng.randint(2, 10)
+        seq = random_sequence(rng, n, rng.randint(n, 4 * n + 6))
+        c = build_case(DAG, n, [], [seq], kind_of(rng))
+        c["stream"] = stream_r
+        cases.append(c)
+    for _ in range(n_exotic):
+        n = rng.randint(1, 5)
+        seq = exotic_sequence(rng, n, rng.randint(1, 30))
+        c = build_case(DAG, n, [], [seq], kind_of(rng))
+        c["stream"] = stream_e
+        cases.append(c)
+    hist["%s sequences" % stream_r] = n_random
+    hist["%s sequences" % stream_e] = n_exotic
+    return cases
 
 
 def generate(ck, DAG, tier, rng, hist):
@@ -518,28 +686,38 @@ def generate(ck, DAG, tier, rng, hist):
         ck.notes["exh-states"] = "skipped: DAG objects carry attributes besides adjacency_table/values"
         if tier != "thorough":
             cases += exhaustive_nodedup(DAG, 3, 4, hist)
-    nr = 0
-    for _ in range(b["random"]):
-        n = rng.randint(2, 10)
-        seq = random_sequence(rng, n, rng.randint(n, 4 * n + 6))
-        c = build_case(DAG, n, [], [seq])
-        c["stream"] = "random"
-        cases.append(c)
-        nr += 1
-    for _ in range(b["exotic"]):
-        n = rng.randint(1, 5)
-        seq = exotic_sequence(rng, n, rng.randint(1, 30))
-        c = build_case(DAG, n, [], [seq])
-        c["stream"] = "exotic"
-        cases.append(c)
-    hist["random sequences"] = nr
-    hist["exotic sequences"] = b["exotic"]
+    # the other two kinds of object, no study staged so far in this process
+    if _HIST["staged"]:
+        ck.notes["history"] = "a study had already been staged in this process before the no-history streams"
+    n1, L1 = b["sub_nodedup"]
+    for kind in KINDS[1:]:
+        cases += exhaustive_nodedup(DAG, n1, L1, hist, kind)
+        cases += probes(DAG, kind, "probe", hist)
+    cases += probes(DAG, "DAG", "probe", hist)
+    cases += sequences(DAG, rng, hist, b["random"], b["exotic"], "random", "exotic", pick_kind)
+    # process history: stage real studies, then fresh objects again
+    n2, L2 = b["hist_nodedup"]
+    for k in range(b["stagings"]):
+        stage_history(rng, k)
+        if k == 0:
+            cases += load_corpus(DAG, KINDS, "history-corpus")
+            for kind in KINDS:
+                cases += probes(DAG, kind, "history-probe", hist)
+                cases += exhaustive_nodedup(DAG, n2, L2, hist, kind, "history-exh-nodedup")
+        cases += sequences(DAG, rng, {}, b["hist_random"] // b["stagings"], b["hist_exotic"] // b["stagings"],
+                           "history-random", "history-exotic", pick_kind)
+    hist["history-random sequences"] = (b["hist_random"] // b["stagings"]) * b["stagings"]
+    hist["history-exotic sequences"] = (b["hist_exotic"] // b["stagings"]) * b["stagings"]
+    hist["studies staged in this process"] = dict(_HIST, errors=dict(_HIST["errors"]))
+    import shutil
+    shutil.rmtree(os.path.join(common.WORK, "C14_hist"), ignore_errors=True)
     return cases
 
 
 def account(ck, cases, hist):
     ops_h = {}
     sizes = {}
+    kinds = {}
     for c in cases:
         h = classify_ops(c)
         for k, v in h.items():
@@ -549,13 +727,17 @@ def account(ck, cases, hist):
         for br in c["branches"]:
             prev = c["start"]
             for op, o in br:
-                ck.count((json.dumps(prev), tuple(op)), nontrivial=bool(prev) and op[0] != "add_node")
+                ck.count((c.get("obj", "DAG"), bool(c.get("hist")), json.dumps(prev), tuple(op)),
+                         nontrivial=bool(prev) and op[0] != "add_node")
                 prev = o["adj"]
-        if c.get("stream") in ("random", "exotic"):
+        if c.get("stream") in ("random", "exotic", "history-random", "history-exotic"):
             k = "%s: nodes=%d" % (c["stream"], len(c["branches"][0][-1][1]["adj"]) if c["branches"][0] else 0)
             sizes[k] = sizes.get(k, 0) + 1
+        k = "%s / %s" % (c.get("obj", "DAG"), "after staging" if c.get("hist") else "no study staged before")
+        kinds[k] = kinds.get(k, 0) + nsteps
         ck.cov["traces_validated_against_impl"] += len(c["branches"])
     hist["operations by outcome"] = ops_h
+    hist["operations by object kind and process history"] = dict(sorted(kinds.items()))
     hist["final node count of random/exotic sequences"] = dict(sorted(sizes.items()))
 
 
@@ -570,7 +752,8 @@ def run(ck):
     account(ck, cases, hist)
     for c in cases:
         if c.get("stream") == "random":
-            ck.sample({"n": c["n"], "ops": flatten(c), "final_table": c["branches"][0][-1][1]["adj"]}, limit=3)
+            ck.sample({"n": c["n"], "object": c.get("obj", "DAG"), "ops": flatten(c),
+                       "final_table": c["branches"][0][-1][1]["adj"]}, limit=3)
     t1 = time.time()
     process(ck, DAG, cases, "C14")
     ck.notes["coq_seconds"] = round(time.time() - t1, 1)
@@ -578,10 +761,17 @@ def run(ck):
         "corpus; every operation sequence (add_node/add_edge/remove_edge, all argument choices incl. self, dangling, "
         "duplicate, cycle-creating) up to the stated lengths over 3 and 4 names (trie without sharing, and with states "
         "reached twice explored once -- DAG objects hold only adjacency_table and values, checked); seeded structured "
-        "random sequences on 2..10 nodes and uniformly random ones.  evaluation = one operation applied to the real DAG "
+        "random sequences on 2..10 nodes and uniformly random ones.  Objects: plain DAG for every stream; fresh ExecutionGraph "
+        "objects and a fresh Study object's own DAG API (born with _source = name n) for the trie, the probe stream (from a "
+        "built edge / chain / diamond: every next operation and every pair edge-operation + operation) and the random/exotic "
+        "streams.  Process history: after these, small real studies are staged in the same process (c08's builder, as "
+        "maestro.run_study) and the corpus, probe, trie and random/exotic streams run again on FRESH objects of the three "
+        "kinds (history-* streams): the monitor must hold on every object whatever was done to other objects before.  The "
+        "staged ExecutionGraph itself is not examined: Study.stage() disables detect_cycle on that one instance by design.  "
+        "evaluation = one operation applied to the real DAG "
         "class with table, values keys, result kind, detect_cycle, topological_sort, bfs_subtree and dfs_subtree of every "
         "name compared with the model and C14_ok evaluated on the implementation's observable; distinct = (table before, "
-        "operation); non-trivial = an edge operation on a non-empty table")
+        "operation, object kind, staged-before?); non-trivial = an edge operation on a non-empty table")
     ck.cov["input_distribution"] = hist
 
     def search():
@@ -613,9 +803,13 @@ def replay(ck, path):
         print("replay file holds no input (broken proof or correspondence without a failing input):")
         print(json.dumps(json.load(open(path)), indent=1)[:4000])
         return 1
+    for k in range(int(j.get("hist", 0) or 0)):
+        stage_history(random.Random(ck.seed + k), k)
+    if j.get("hist"):
+        print("process history: staged %d studies first: %s" % (_HIST["staged"], json.dumps(_HIST)))
     c = build_case(DAG, j["n"], [tuple(o) for o in j.get("setup", [])],
-                   [[tuple(o) for o in br] for br in j["branches"]])
-    print("implementation:")
+                   [[tuple(o) for o in br] for br in j["branches"]], j.get("obj", "DAG"))
+    print("implementation (%s object):" % j.get("obj", "DAG"))
     for br in c["branches"]:
         for op, o in br:
             print("  ", op, json.dumps(o))
